@@ -206,39 +206,51 @@ fn check_rounded(ctx: &mut Ctx, rect: Rectangle, corners: CornerRadii) {
         (c.bottom_right, tl.x + w as i32 - c.bottom_right.width as i32, tl.y + h as i32 - c.bottom_right.height as i32, 2),
         (c.bottom_left, tl.x, tl.y + h as i32 - c.bottom_left.height as i32, 3),
     ];
-    for (i, (r, bx, by, q)) in boxes.iter().enumerate() {
-        if r.width == 0 || r.height == 0 {
-            continue;
-        }
-        let overlaps = boxes.iter().enumerate().any(|(j, (r2, bx2, by2, _))| {
-            j != i && r2.width > 0 && r2.height > 0 && *bx < bx2 + r2.width as i32 && *bx2 < bx + r.width as i32 && *by < by2 + r2.height as i32 && *by2 < by + r.height as i32
-        });
-        if overlaps {
-            continue;
-        }
-        // centre of the corner ellipse (continuous coordinates, pixel (x,y) covers [x,x+1))
-        let (cx, cy) = match q {
-            0 => ((bx + r.width as i32) as f64, (by + r.height as i32) as f64),
-            1 => (*bx as f64, (by + r.height as i32) as f64),
-            2 => (*bx as f64, *by as f64),
-            _ => ((bx + r.width as i32) as f64, *by as f64),
-        };
-        for y in *by..by + r.height as i32 {
-            for x in *bx..bx + r.width as i32 {
-                let sd = signed_dist_point_ellipse(r.width as f64, r.height as f64, x as f64 + 0.5 - cx, y as f64 + 0.5 - cy);
-                let inside = rr.contains(Point::new(x, y));
-                if sd < -0.5 - GUARD && !inside {
-                    ctx.violation("rounded_rectangle|corner-point-deep-inside-not-included", case, || format!("({},{}) is {:.3} px inside the ideal corner curve (corner {}, confined radius {:?})", x, y, -sd, q, r));
-                    return;
+    // every point of the rectangle: it belongs to the ideal shape iff no corner whose box covers it
+    // cuts it off (the boxes of diagonally opposite corners may overlap when both radii are large:
+    // then both curves apply); points covered by no corner box belong to it
+    for y in tl.y..tl.y + h as i32 {
+        for x in tl.x..tl.x + w as i32 {
+            let mut worst: Option<(f64, usize)> = None;
+            for (r, bx, by, q) in boxes.iter() {
+                if r.width == 0 || r.height == 0 || x < *bx || y < *by || x >= bx + r.width as i32 || y >= by + r.height as i32 {
+                    continue;
                 }
-                if sd > 0.5 + GUARD && inside {
-                    ctx.violation("rounded_rectangle|corner-point-far-outside-included", case, || format!("({},{}) is {:.3} px outside the ideal corner curve (corner {}, confined radius {:?})", x, y, sd, q, r));
-                    return;
+                // centre of the corner ellipse (continuous coordinates, pixel (x,y) covers [x,x+1))
+                let (cx, cy) = match q {
+                    0 => ((bx + r.width as i32) as f64, (by + r.height as i32) as f64),
+                    1 => (*bx as f64, (by + r.height as i32) as f64),
+                    2 => (*bx as f64, *by as f64),
+                    _ => ((bx + r.width as i32) as f64, *by as f64),
+                };
+                let sd = signed_dist_point_ellipse(r.width as f64, r.height as f64, x as f64 + 0.5 - cx, y as f64 + 0.5 - cy);
+                if worst.map_or(true, |(wsd, _)| sd > wsd) {
+                    worst = Some((sd, *q as usize));
+                }
+            }
+            let inside = rr.contains(Point::new(x, y));
+            let in_points = set.contains(&(x, y));
+            match worst {
+                None => {
+                    if !inside || !in_points {
+                        ctx.violation("rounded_rectangle|straight-part-point-not-included", case, || format!("({},{}) lies in no corner box but contains() = {}, yielded by points() = {}", x, y, inside, in_points));
+                        return;
+                    }
+                }
+                Some((sd, q)) => {
+                    if sd < -0.5 - GUARD && !(inside && in_points) {
+                        ctx.violation("rounded_rectangle|corner-point-deep-inside-not-included", case, || format!("({},{}) is {:.3} px inside the ideal corner curve (corner {}), contains() = {}, yielded by points() = {}", x, y, -sd, q, inside, in_points));
+                        return;
+                    }
+                    if sd > 0.5 + GUARD && (inside || in_points) {
+                        ctx.violation("rounded_rectangle|corner-point-far-outside-included", case, || format!("({},{}) is {:.3} px outside the ideal corner curve (corner {}), contains() = {}, yielded by points() = {}", x, y, sd, q, inside, in_points));
+                        return;
+                    }
                 }
             }
         }
-        ctx.count("corner_boxes_checked", 1);
     }
+    ctx.count("rounded_rectangles_band_tested", 1);
     if w >= 3 && h >= 3 && corners != CornerRadii::new(Size::zero()) {
         ctx.nontrivial(egmon::rng::hash_str(&case()));
     }
